@@ -8,7 +8,7 @@ for k in sorted(os.listdir(os.path.join(ROOT, "seeded"))):
     d = os.path.join(ROOT, "seeded", k); mp = os.path.join(d, "meta.json")
     if not os.path.exists(mp): continue
     if only and k not in only: continue
-    meta = json.load(open(mp)); checks = meta["checks_run"][0].split()[3:]
+    meta = json.load(open(mp)); checks = meta["checks_run"][0].split()[2:]
     out = subprocess.run([os.path.join(ROOT, "bin/mutcheck"), os.path.join(d, "patch.diff")] + checks, capture_output=True, text=True).stdout
     res = dict(re.findall(r"MUTCHECK (\S+) rc=(\d+)", out))
     details = re.findall(r"detail: (.*)", out)
